@@ -109,7 +109,11 @@ class VClock:
 # ----------------------------------------------------------------------------
 
 
-class ScriptExc(Exception):
+class Scripted:
+    """Marker for exceptions raised by the scripted operation (they carry idx / klass / ra / as_obj)."""
+
+
+class ScriptExc(Scripted, Exception):
     """Exception raised by the scripted operation."""
 
     def __init__(self, idx: int, klass: str, ra: Any = None, as_obj: bool = False) -> None:
@@ -120,13 +124,29 @@ class ScriptExc(Exception):
         self.as_obj = as_obj
 
 
-class ScriptCircuitOpen(CircuitOpenError):
+class ScriptCircuitOpen(Scripted, CircuitOpenError):
     def __init__(self, idx: int, klass: str) -> None:
         super().__init__("open")
         self.idx = idx
         self.klass = klass
         self.ra = None
         self.as_obj = False
+
+
+def _typed(base):
+    return type("Script" + base.__name__, (Scripted, base), {})
+
+
+TYPED_EXC = {b.__name__: _typed(b) for b in (TimeoutError, ConnectionError, KeyError, AssertionError, ValueError, OSError)}
+
+
+def make_script_exc(etype: str | None, idx: int, klass: str, ra: Any, as_obj: bool) -> BaseException:
+    """The operation's exception may be of any type (builtin TimeoutError, OSError, ... included)."""
+    if not etype:
+        return ScriptExc(idx, klass, ra, as_obj)
+    x = TYPED_EXC[etype](f"scripted {klass} #{idx}")
+    x.idx, x.klass, x.ra, x.as_obj = idx, klass, ra, as_obj
+    return x
 
 
 class HookFault(Exception):
@@ -147,6 +167,16 @@ class Res:
     klass: str | None
     ra: Any = None
     as_obj: bool = False
+
+
+class FalsyRes(Res):
+    """A perfectly good return value that happens to be falsy and empty."""
+
+    def __bool__(self) -> bool:
+        return False
+
+    def __len__(self) -> int:
+        return 0
 
 
 class Suspend:
@@ -250,6 +280,8 @@ class Env:
         script = self.call["script"]
         if not script:
             return {"dur": 0, "kind": "ok"}
+        if self.call.get("cycle"):
+            return script[i % len(script)]
         return script[i] if i < len(script) else script[-1]
 
     def op_body(self) -> Any:
@@ -267,16 +299,19 @@ class Env:
             self.clock.t += g(dur)
         kind = e["kind"]
         self.trace.append(("op_end", i + 1, self.now(), kind, self.clock.rel()))
-        if kind == "ok":
-            r = Res(i, None)
-            self.objs[i] = r
-            return r
-        if kind == "res":
-            r = Res(i, e["klass"], e.get("ra"), e.get("as_obj", False))
+        self.pending = (i, e)  # what the result classifier is about to be asked about
+        if kind in ("ok", "res"):
+            klass = e["klass"] if kind == "res" else None
+            if e.get("rval") == "none":
+                r = None  # a legal return value; the result classifier learns its class from the script
+            elif e.get("rval") == "falsy":
+                r = FalsyRes(i, klass, e.get("ra"), e.get("as_obj", False))
+            else:
+                r = Res(i, klass, e.get("ra"), e.get("as_obj", False))
             self.objs[i] = r
             return r
         if kind == "exc":
-            x: BaseException = ScriptExc(i, e["klass"], e.get("ra"), e.get("as_obj", False))
+            x: BaseException = make_script_exc(e.get("etype"), i, e["klass"], e.get("ra"), e.get("as_obj", False))
         elif kind == "copen":
             x = ScriptCircuitOpen(i, e.get("klass", "UNKNOWN"))
         elif kind == "abort":
@@ -329,16 +364,26 @@ class Env:
             klass = "UNKNOWN"
         self.trace.append(("classify", idx, klass, type(exc).__name__))
         self.maybe_fault("classifier", i)
+        if isinstance(idx, int):
+            self.clock.t += g(self._script_entry(idx).get("cdur", 0))  # classification may take time
         return self._classification(klass, getattr(exc, "ra", None), getattr(exc, "as_obj", False))
 
     def result_classifier(self, res: Any):
         i = self.tick("result_classifier")
-        klass = getattr(res, "klass", None)
-        self.trace.append(("rclassify", getattr(res, "idx", None), klass))
+        if res is None and getattr(self, "pending", None) is not None:
+            idx, e = self.pending
+            klass = e.get("klass") if e["kind"] == "res" else None
+            ra, as_obj = e.get("ra"), e.get("as_obj", False)
+        else:
+            idx, klass = getattr(res, "idx", None), getattr(res, "klass", None)
+            ra, as_obj = getattr(res, "ra", None), getattr(res, "as_obj", False)
+        self.trace.append(("rclassify", idx, klass))
         self.maybe_fault("result_classifier", i)
         if klass is None:
             return None
-        return self._classification(klass, res.ra, res.as_obj)
+        if isinstance(idx, int):
+            self.clock.t += g(self._script_entry(idx).get("cdur", 0))
+        return self._classification(klass, ra, as_obj)
 
     # --- strategies ----------------------------------------------------------
     def make_strategy(self, key: str, spec: dict):
@@ -384,6 +429,35 @@ class Env:
 
         if style == "legacy":
             return legacy_strategy
+        if style == "legacy_defaults":
+
+            def legacy_with_default(attempt, klass, prev_sleep_s=None):
+                return legacy_strategy(attempt, klass, prev_sleep_s)
+
+            return legacy_with_default
+        if style == "ctx_defaults":
+            # a context-style strategy with two extra defaulted parameters is still context-style
+            def ctx_with_defaults(ctx, base_s=0.5, cap_s=8.0):
+                if base_s != 0.5 or cap_s != 8.0:
+                    env.trace.append(("strat_args_clobbered", key, repr(base_s), repr(cap_s)))
+                return ctx_strategy(ctx)
+
+            return ctx_with_defaults
+        if style == "ctx_kwonly":
+
+            def ctx_kwonly(ctx, *, scale=1.0):
+                return ctx_strategy(ctx)
+
+            return ctx_kwonly
+        if style == "partial":
+            import functools
+
+            def two(tag, ctx):
+                return ctx_strategy(ctx)
+
+            return functools.partial(two, "bound")
+        if style == "lambda":
+            return lambda ctx: ctx_strategy(ctx)
         if style == "obj":
 
             class StrategyObject:
@@ -1021,23 +1095,25 @@ def describe_final(env_objs: dict, end_ev: tuple) -> dict:
         return {"via": "closed"}
 
     def idx_of(o):
-        for i, v in env_objs.items():
-            if v is o:
+        for i in sorted(env_objs, reverse=True):  # latest first: None may be returned by several attempts
+            if env_objs[i] is o:
                 return i
         return None
+
+    none_idx = idx_of(None)
 
     if kind == "return":
         if isinstance(obj, RetryOutcome):
             return {
                 "via": "outcome",
                 "ok": obj.ok,
-                "value_idx": idx_of(obj.value) if obj.value is not None else None,
+                "value_idx": idx_of(obj.value) if (obj.value is not None or obj.ok) else None,
                 "stop_reason": obj.stop_reason.value if obj.stop_reason is not None else None,
                 "attempts": obj.attempts,
                 "last_class": obj.last_class.name if obj.last_class is not None else None,
                 "last_exc_idx": idx_of(obj.last_exception) if obj.last_exception is not None else None,
                 "last_exc_type": type(obj.last_exception).__name__ if obj.last_exception is not None else None,
-                "last_res_idx": idx_of(obj.last_result) if obj.last_result is not None else None,
+                "last_res_idx": idx_of(obj.last_result) if obj.last_result is not None else (none_idx if obj.cause == "result" else None),
                 "cause": obj.cause,
                 "next_sleep_s": obj.next_sleep_s,
                 "elapsed_s": obj.elapsed_s,
@@ -1052,7 +1128,7 @@ def describe_final(env_objs: dict, end_ev: tuple) -> dict:
             attempts=x.attempts,
             last_class=x.last_class.name if x.last_class is not None else None,
             last_exc_idx=idx_of(x.last_exception) if x.last_exception is not None else None,
-            last_res_idx=idx_of(x.last_result) if x.last_result is not None else None,
+            last_res_idx=idx_of(x.last_result) if x.last_result is not None else (none_idx if x.last_exception is None else None),
             next_sleep_s=x.next_sleep_s,
         )
     return d
